@@ -201,10 +201,10 @@ pub enum Expression {
 
 #[doc(hidden)]
 pub fn get_ast(tokens: &[Token]) -> Result<Expression, ParseError> {
-    _get_ast(tokens, &mut 0)
+    _get_ast(tokens, &mut 0, false)
 }
 
-fn _get_ast(tokens: &[Token], pos: &mut usize) -> Result<Expression, ParseError> {
+fn _get_ast(tokens: &[Token], pos: &mut usize, nested: bool) -> Result<Expression, ParseError> {
     if tokens.is_empty() {
         return Err(EmptyExpression);
     }
@@ -217,15 +217,27 @@ fn _get_ast(tokens: &[Token], pos: &mut usize) -> Result<Expression, ParseError>
             Number(i) => expr.push(Variable(i)),
             Lparen => {
                 *pos += 1;
-                let subtree = _get_ast(tokens, pos)?;
+                let subtree = _get_ast(tokens, pos, true)?;
                 expr.push(subtree);
             }
-            Rparen => return Ok(Sequence(expr)),
+            Rparen => {
+                // a closing parenthesis is only valid inside a group
+                return if nested {
+                    Ok(Sequence(expr))
+                } else {
+                    Err(InvalidExpression)
+                };
+            }
         }
         *pos += 1;
     }
 
-    Ok(Sequence(expr))
+    if nested {
+        // the input ended inside an unclosed group
+        Err(InvalidExpression)
+    } else {
+        Ok(Sequence(expr))
+    }
 }
 
 /// Attempts to parse the input `&str` as a lambda `Term` encoded in the given `Notation`.
